@@ -33,7 +33,7 @@ type scenario struct {
 	Config     string            `json:"config"` // write term / sh run
 	Routes     string            `json:"routes"` // linux: ip route show
 	IPTables   string            `json:"iptables"`
-	AskYes     bool              `json:"askyes"`
+	AskYes     string            `json:"askyes"` // "" | "old" | "new": host-key question of ssh, old and new (OpenSSH 8) wording
 	NeedEnable bool              `json:"needenable"`
 	EnablePass bool              `json:"enablepass"`
 	FaultLine  int               `json:"fault_line"` // -1: none
@@ -263,12 +263,19 @@ func main() {
 	finish()
 }
 
+func askYesText() string {
+	if sc.AskYes == "new" {
+		return "ED25519 key fingerprint is SHA256:abcdefghijklmnopqrstuvwxyz0123456789ABCDEFG.\n" +
+			"Are you sure you want to continue connecting (yes/no/[fingerprint])? "
+	}
+	return "Are you sure you want to continue connecting (yes/no)? "
+}
+
 // ---------------------------------------------------------------- ASA / IOS
 
 func cisco() {
-	if sc.AskYes {
-		send("The authenticity of host 'router (10.1.1.1)' can't be established.\n" +
-			"Are you sure you want to continue connecting (yes/no)? ")
+	if sc.AskYes != "" {
+		send("The authenticity of host 'router (10.1.1.1)' can't be established.\n" + askYesText())
 		line, i := readLine()
 		r := &rec{I: i, Line: line, Class: "login", Mode: mode}
 		gate(i)
@@ -478,9 +485,8 @@ func ciscoLine(line string, i int) {
 // ---------------------------------------------------------------- Linux
 
 func linux() {
-	if sc.AskYes {
-		send("The authenticity of host 'router (10.1.1.1)' can't be established.\n" +
-			"Are you sure you want to continue connecting (yes/no)? ")
+	if sc.AskYes != "" {
+		send("The authenticity of host 'router (10.1.1.1)' can't be established.\n" + askYesText())
 		line, i := readLine()
 		r := &rec{I: i, Line: line, Class: "login", Mode: mode}
 		gate(i)
